@@ -312,3 +312,47 @@ func VK05cConcurrentUploads() {
 	}
 	vrt.Assert(len(ix.needs) == 0, "nothing stays pending after concurrent uploads of a complete set")
 }
+
+// K14d (C14): the concurrent uploads of K05c with the happens-before race detector on, plus a
+// reader that stats the blobs through the index while they are being indexed.
+func VK14dIndexUploads() {
+	vInstall()
+	w := &vWorld{refs: []blob.Ref{blob.VerifSmallRef(10), blob.VerifSmallRef(11), blob.VerifSmallRef(12)}, deps: [][]int{nil, {0}, {0}}}
+	vW = w
+	kv, src := &vmodel.KV{}, &vmodel.Store{}
+	ix := vNewIndex(kv, src)
+	vrt.RaceDetect(true)
+	vrt.PreemptAtLocks(true)
+	vrt.Schedules(8 + 3*vrt.Tier())
+	done := make(chan bool, 4)
+	for _, i := range vPerm(3) {
+		i := i
+		go func() {
+			vDeliver(ix, src, w.refs[i])
+			done <- true
+		}()
+	}
+	go func() {
+		for i := range w.refs {
+			n := 0
+			err := ix.StatBlobs(context.Background(), []blob.Ref{w.refs[i]}, func(sb blob.SizedRef) error {
+				n++
+				vrt.Assert(sb.Ref == w.refs[i] && sb.Size == 1, "a stat through the index reports only true facts")
+				return nil
+			})
+			vrt.Assert(err == nil && n <= 1, "a stat through the index succeeds while blobs are being indexed")
+		}
+		done <- true
+	}()
+	for k := 0; k < 4; k++ {
+		<-done
+	}
+	vrt.PreemptAtLocks(false)
+	vrt.Quiesce()
+	for i := range w.refs {
+		have, err := kv.Get("have:" + w.refs[i].String())
+		vrt.Assert(err == nil && have == "1|indexed", "after concurrent uploads of a blob set with all dependencies, every blob ends up indexed")
+	}
+	vrt.Assert(len(ix.needs) == 0, "nothing stays pending after concurrent uploads of a complete set")
+	vrt.Cover("done")
+}
